@@ -78,6 +78,12 @@ static void on_watchdog(int) {
 	if (cur_valid) { Text t; path_string(t, cur_pre_idx, &cur_op, &cur_dv); fprintf(stderr, "\nVX-INFLIGHT replay=%s\nVX-HANG: this call did not return within the watchdog period\n", t.c()); fflush(stderr); }
 	_exit(77);
 }
+// a fatal signal inside a library call (wild pointer, illegal instruction ...): name the edge, then die with a code the front end knows
+static void on_crash(int sig) {
+	static volatile int once = 0; if (once) _exit(78); once = 1;
+	if (cur_valid) { Text t; path_string(t, cur_pre_idx, &cur_op, &cur_dv); fprintf(stderr, "\nVX-INFLIGHT replay=%s\nVX-CRASH: fatal signal %d while this call was executing\n", t.c(), sig); fflush(stderr); }
+	_exit(78);
+}
 #ifdef VX_SAN
 extern "C" void __sanitizer_set_death_callback(void (*cb)(void));
 static void on_sanitizer_death() { if (!cur_valid) return; Text t; path_string(t, cur_pre_idx, &cur_op, &cur_dv); fprintf(stderr, "\nVX-INFLIGHT replay=%s\n", t.c()); fflush(stderr); }
@@ -761,6 +767,7 @@ int main(int argc, char** argv) {
 		else if ((v = val("--samples"))) opt.samples = atoi(v);
 		else if ((v = val("--ids"))) { g_nids = 0; for (const char* p = v; *p && g_nids < 8; ) { int k = atoi(p); if (k >= 0 && k < N) g_ids[g_nids++] = k; while (*p && *p != ',') ++p; if (*p == ',') ++p; } if (!g_nids) die("--ids: no valid id"); }
 		else if ((v = val("--copy-dev"))) opt.copy_dev = atoi(v);
+		else if (!strcmp(a, "--copy-move")) g_comp.move = true;
 		else if ((v = val("--max-states"))) opt.max_states = strtoul(v, nullptr, 0);
 		else if (!strcmp(a, "--strategies")) opt.strategies = true;
 		else if (!strcmp(a, "--replica")) opt.companions_replica = true;
@@ -775,6 +782,9 @@ int main(int argc, char** argv) {
 	}
 #ifdef VX_SAN
 	__sanitizer_set_death_callback(on_sanitizer_death);
+#else
+	{ static char altstack[1 << 16]; stack_t ss; ss.ss_sp = altstack; ss.ss_size = sizeof altstack; ss.ss_flags = 0; sigaltstack(&ss, nullptr);
+	  struct sigaction sa; memset(&sa, 0, sizeof sa); sa.sa_handler = on_crash; sa.sa_flags = SA_ONSTACK; const int sigs[] = {SIGSEGV, SIGBUS, SIGILL, SIGFPE}; for (int sg : sigs) sigaction(sg, &sa, nullptr); }
 #endif
 	{ struct sigaction sa; memset(&sa, 0, sizeof sa); sa.sa_handler = on_watchdog; sa.sa_flags = SA_RESTART; sigaction(SIGALRM, &sa, nullptr);
 	  struct itimerval it; it.it_interval.tv_sec = 3; it.it_interval.tv_usec = 0; it.it_value = it.it_interval; setitimer(ITIMER_REAL, &it, nullptr); }
